@@ -68,6 +68,48 @@ FAULTS = [
      "            return idx+start", "            return idx+start+1", 'position off by one'),
     ('cgsmiles.write_cgsmiles:format_bonding', 'cgsmiles/write_cgsmiles.py',
      "        if order_symb != '-':", "        if order_symb != '-' and order_symb != '.':", 'order-0 symbol not written'),
+    ('cgsmiles.resolve:MoleculeResolver.resolve_disconnected_molecule', 'cgsmiles/resolve.py',
+     "                self.molecule.nodes[new_node]['fragid'] = [meta_node]", "                self.molecule.nodes[new_node]['fragid'] = [meta_node + 1]",
+     'membership records the wrong coarse node'),
+    ('cgsmiles.resolve:MoleculeResolver.resolve_disconnected_molecule', 'cgsmiles/resolve.py',
+     "                if not all(np.array(orders) == 0):", "                if not all(np.array(orders) <= 1):", 'fragment-less node tolerated on a single bond'),
+    ('cgsmiles.resolve:MoleculeResolver.resolve_disconnected_molecule', 'cgsmiles/resolve.py',
+     "            graph_frag = nx.Graph()\n", "            graph_frag = self.meta_graph.nodes[meta_node].get('graph', nx.Graph())\n", 'fragment graph object reused'),
+    ('cgsmiles.resolve:MoleculeResolver.squash_atoms', 'cgsmiles/resolve.py',
+     "            self.molecule.nodes[node_to_keep]['fragid'] += self.molecule.nodes[node_to_keep]['contraction'][node_to_remove]['fragid']\n", "",
+     'membership of the merged atom dropped'),
+    ('cgsmiles.resolve:MoleculeResolver.squash_atoms', 'cgsmiles/resolve.py',
+     "            if node_to_keep == node_to_remove:\n                continue\n", "", 'atom merged with itself'),
+    ('cgsmiles.resolve:MoleculeResolver.resolve', 'cgsmiles/resolve.py',
+     '        nx.set_node_attributes(self.meta_graph, new_fragnames, "fragname")\n', "", 'atom names do not become fragment names'),
+    ('cgsmiles.resolve:MoleculeResolver.resolve', 'cgsmiles/resolve.py',
+     "        self.resolution_counter += 1\n", "        self.resolution_counter += 2\n", 'a level is skipped'),
+    ('cgsmiles.resolve:MoleculeResolver.resolve', 'cgsmiles/resolve.py',
+     "        self.molecule = nx.Graph()\n\n        # add disconnected", "        self.molecule = self.meta_graph\n\n        # add disconnected",
+     'fine graph not started empty / aliased with the coarse graph'),
+    ('cgsmiles.resolve:MoleculeResolver.resolve', 'cgsmiles/resolve.py',
+     "        self.resolve_disconnected_molecule(fragment_dict)\n\n        # connect valid bonding descriptors\n        self.edges_from_bonding_descrpt(all_atom=all_atom)\n",
+     "        self.edges_from_bonding_descrpt(all_atom=all_atom)\n        self.resolve_disconnected_molecule(fragment_dict)\n", 'bonds made before the fragments exist'),
+    ('cgsmiles.sample:MoleculeSampler.add_fragment', 'cgsmiles/sample.py',
+     "        molecule.nodes[source_node]['bonding'].remove(bonding)\n", "", 'site descriptor not consumed'),
+    ('cgsmiles.sample:MoleculeSampler.add_fragment', 'cgsmiles/sample.py',
+     "                if bond not in self.terminal_bonds:", "                if bond in self.terminal_bonds:", 'terminal rule inverted'),
+    ('cgsmiles.sample:MoleculeSampler.add_fragment', 'cgsmiles/sample.py',
+     "                          order = int(bonding[-1]))", "                          order = 1)", 'bond order ignores the descriptor'),
+    ('cgsmiles.sample:MoleculeSampler.sample', 'cgsmiles/sample.py',
+     "            current_weight += self.fragment_masses[fragname]", "            current_weight += 2 * self.fragment_masses[fragname]", 'fragment mass counted twice'),
+    ('cgsmiles.sample:MoleculeSampler.sample', 'cgsmiles/sample.py',
+     "        while current_weight < target_weight:", "        while current_weight <= target_weight:", 'one fragment too many at exact target'),
+    ('cgsmiles.cgsmiles_utils:find_open_bonds', 'cgsmiles/cgsmiles_utils.py',
+     "            for bonding_types in bonding_types:", "            for bonding_types in bonding_types[:1]:", 'only the first descriptor of an atom is listed'),
+    ('cgsmiles.pysmiles_utils:rebuild_h_atoms', 'cgsmiles/pysmiles_utils.py',
+     "                if attr in mol_graph.nodes[node]:\n                    continue\n", "", 'explicit hydrogen annotations overwritten'),
+    ('cgsmiles.pysmiles_utils:rebuild_h_atoms', 'cgsmiles/pysmiles_utils.py',
+     "                value = mol_graph.nodes[anchor].get(attr, None)", "                value = mol_graph.nodes[node].get(attr, None)", 'hydrogen inherits from itself'),
+    ('cgsmiles.graph_utils:set_atom_names_atomistic', 'cgsmiles/graph_utils.py',
+     "            atomname = molecule.nodes[node]['element'] + str(idx)", "            atomname = molecule.nodes[node]['element'] + str(idx + 1)", 'names start at 1'),
+    ('cgsmiles.graph_utils:merge_graphs', 'cgsmiles/graph_utils.py',
+     "        if correspondence[node1] != correspondence[node2]:", "        if correspondence[node1] < correspondence[node2]:", 'half of the template bonds dropped'),
 ]
 
 
